@@ -535,7 +535,9 @@ class BinRun:
         try:
             t = np.arange(ns, dtype=np.int64)[:, None]
             c = np.arange(K, dtype=np.int64)[None, :]
-            ((t * K + c) % MOD).astype(np.float32).tofile(d / 'rec.bin')
+            content = ((t * K + c) % MOD).astype(np.float32)
+            content.tofile(d / 'rec.bin')
+            self.prior = None
             kw = {}
             if 'off' in inp:
                 kw['trough_offset'] = inp['off']
@@ -581,6 +583,19 @@ class BinRun:
                 return None
             with warnings.catch_warnings():
                 warnings.simplefilter('ignore')
+                if deep and inp.get('prior', 1):
+                    # history of the PATH: an unrelated recording of the same shape is extracted from the same file name first,
+                    # then the file is replaced (unlink + rewrite) by the recording of this case
+                    ((t * K + c + 4099) % MOD).astype(np.float32).tofile(d / 'rec.bin')
+                    try:
+                        call(d / 'prev')
+                    except Exception:
+                        pass
+                    shutil.rmtree(d / 'prev', ignore_errors=True)
+                    (d / 'rec.bin').unlink()
+                    content.tofile(d / 'rec.bin')
+                    self.prior = ('before this extraction an unrelated recording of the same shape was extracted from the same path in the '
+                                  'same process; the file was then replaced (unlink + rewrite) by this recording')
                 try:
                     call(d / 'out')
                     self.arg_modified = untouched('after extract_wfs_cbin')
@@ -887,7 +902,7 @@ def oracle_bin(inp, alt=None):
             bad = np.argwhere(~((run.traces[r] == exp) | (np.isnan(run.traces[r]) & np.isnan(exp))))[0]
             return (f'row {r} (sample {s}, cluster {int(t["cluster"][r])}, peak channel {p}): traces[{r}][{bad[0]}][{bad[1]}] = '
                     f'{run.traces[r][bad[0]][bad[1]]}, the source on channel {nb[p][bad[0]] if bad[0] < len(nb[p]) else "NaN"} '
-                    f'at sample {s - off + bad[1]} is {exp[bad[0]][bad[1]]}')
+                    f'at sample {s - off + bad[1]} is {exp[bad[0]][bad[1]]}' + (f' [history: {run.prior}]' if getattr(run, 'prior', None) else ''))
         if run.chans[r].tolist() != nb[p] + [nc] * (w - len(nb[p])):
             return f'channel map row {r} is {run.chans[r].tolist()}, neighbourhood of peak channel {p} is {nb[p]} padded with {nc}'
     # table is sorted by unit then time, numbered consecutively
